@@ -172,9 +172,14 @@ def run(ctx):
                        "integral and fractional doubles over 600 decades, extremes, random 53-bit mantissas; rate units of "
                        "arity 1-3 over all accepted time units; model evaluated by vm_compute inside Coq and compared "
                        "bit-exactly through (mantissa, exponent); non-trivial = distinct agreed numeric results")
-    ctx.cov["partial"] = ["conv_float_close_full: |convF v a b - v*scaleQ a/scaleQ b| <= 3 ulp for finite, non-overflowing v "
-                          "(stated, not proved: needs the Flocq bridge); the relative-error bound is checked by the oracle on "
-                          "every generated case instead"]
+    ctx.cov["partial"] = ["the float error bound (C18_conv_float_close, _range) is proved for float inputs whose intermediates stay in "
+                          "the normal range; it is refuted for products that underflow to subnormals "
+                          "(C18_conv_float_close_needs_no_underflow) and not stated for int inputs; outside that range the oracle "
+                          "checks the bound per generated case only where the exact result is in range"]
+    ctx.cov["stdlib_axioms_used"] = ("C18_flint_small_int: FloatAxioms.Prim2SF_SF2Prim; C18_conv_float_close/_range: FloatAxioms "
+                                     "(mul_spec, div_spec, eqb_spec, abs_spec, SF2Prim_Prim2SF, Prim2SF_valid, Prim2SF_SF2Prim), "
+                                     "ClassicalDedekindReals.sig_not_dec, sig_forall_dec, Classical_Prop.classic, "
+                                     "FunctionalExtensionality.functional_extensionality_dep (via Flocq / Reals)")
 
     def search(diffs):
         cases = [{"op": d[1][0], "arg": d[1][1]} for d in diffs[:50]]
